@@ -98,7 +98,8 @@ impl Prop for C02 {
     }
     fn strategy(&self, tier: Tier) -> BoxedStrategy<Case02> {
         let bpe_n = tier.pick(512usize, 2048usize);
-        prop_oneof![8 => crate::gen::any_grammar_core_ext(), 1 => string_heavy_grammar()]
+        // %ignore grammars get extra weight: skipped lexemes are where token-level and byte-level row bookkeeping differ most
+        prop_oneof![8 => crate::gen::any_grammar_core_ext(), 4 => crate::cfg::cfg_with_ignore(), 1 => string_heavy_grammar()]
             .prop_flat_map(move |g| {
                 let voc = prop_oneof![4 => syn_vocab_strategy(g.clone(), false), 1 => Just(VocabSpec::bpe(bpe_n, false)), 1 => slice_rich_vocab()];
                 (Just(g), voc, steps(30), proptest::collection::vec(any::<u16>(), 3..10), proptest::bool::weighted(0.4))
